@@ -41,9 +41,13 @@ type C14UDPScenario struct {
 	// upstream sends one empty datagram on it (legal UDP, not carriable by a
 	// Cloak frame): whatever the relay makes of it, nothing malformed may reach
 	// the wire (C10: no zero-length record)
-	EmptyTail bool   `json:"empty_tail,omitempty"`
-	Partial   bool   `json:"partial"`
-	Seed      uint64 `json:"seed"`
+	EmptyTail bool `json:"empty_tail,omitempty"`
+	// OtherHosts: the applications sit on different hosts and all use the same
+	// source port (ck-client bound to a LAN address), instead of one host and
+	// different ports
+	OtherHosts bool   `json:"other_hosts,omitempty"`
+	Partial    bool   `json:"partial"`
+	Seed       uint64 `json:"seed"`
 }
 
 const udpHdr = 14
@@ -64,6 +68,7 @@ func genC14UDP(g *Gen) any {
 		sc.Sources = append(sc.Sources, sends)
 	}
 	sc.EmptyTail = sc.Seed%3 == 0
+	sc.OtherHosts = (sc.Seed>>8)%3 == 0
 	return sc
 }
 
@@ -188,6 +193,9 @@ func runC14UDP(c *Ctx, scAny any) {
 		s, sends := s, sends
 		// local applications of one host: same address, different ports
 		addr := &net.UDPAddr{IP: net.IPv4(10, 0, 7, 10), Port: 5000 + s}
+		if sc.OtherHosts {
+			addr = &net.UDPAddr{IP: net.IPv4(10, 0, 7, byte(10+s)), Port: 5000}
+		}
 		simsync.Go("h:udp-app-send", func() {
 			prog.AwaitReady()
 			if prog.Sock == nil {
